@@ -147,6 +147,19 @@ theorem loopRound_ext : ∀ (cs : List (String × List RegOp)) (s : St), Ext s (
     simp only [loopRound]
     exact Ext.trans (executeToolCall_ext s c.1 c.2) (loopRound_ext cs _)
 
+theorem loopRound_length (g : Guards) : ∀ (cs : List (String × List RegOp)) (s : St),
+    (loopRound g s cs).2.length = cs.length
+  | [], _ => rfl
+  | c :: cs, s => by simp [loopRound, loopRound_length g cs]
+
+theorem loopRound_append (g : Guards) : ∀ (a b : List (String × List RegOp)) (s : St),
+    loopRound g s (a ++ b) =
+      ((loopRound g (loopRound g s a).1 b).1, (loopRound g s a).2 ++ (loopRound g (loopRound g s a).1 b).2)
+  | [], b, s => by simp [loopRound]
+  | c :: a, b, s => by
+    simp only [List.cons_append, loopRound]
+    rw [loopRound_append g a b]
+
 theorem toolLoop_ext : ∀ (k : Nat) (auto : Bool) (rounds : List Round) (s : St),
     Ext s (toolLoop ⟨true, true⟩ k auto s rounds).1
   | 0, _, _, s => by simp [toolLoop]; exact Ext.refl s
